@@ -13,10 +13,10 @@ CHECKS = {
          "Every stream the C01 generator makes the writer emit is parsed by an independent strict .xz/LZMA2/LZMA implementation and by liblzma; header/footer/index/padding/check/dictionary-size/chunk-limit/block-size predicates are evaluated on the parsed layout.",
          "trusts the reference implementation (cross-validated against liblzma and xz-utils in setup) and liblzma 5.4.1", "DESIGN.md#c02"),
  "C03": ("exploration", "property-based testing (rapid): specification-driven generator of operation lists, chunk layouts and container layouts, liblzma-encoded streams and a frozen xz-utils corpus; construction/differential oracle; thorough tier adds native coverage-guided fuzzing over a decision tape that owns every choice of the stream generator (same oracle), and every tier replays the saved fuzz corpus",
-         "Streams whose plaintext is known by construction (operation lists applied to the generator's own history) or from a foreign encoder are decoded by the library under several ReaderConfig.DictCap values; result must equal the constructed bytes. Every block header length 12..1024 is enumerated; readers are also drained through io.Copy / ReadByte and read from fragmenting sources. Generated streams include per-block differing layouts, size fields fitted to their boundaries and end-marker variants; a third of the cases follows an earlier reader instance of the same configuration that failed on a truncated or changed copy or was abandoned.",
+         "Streams whose plaintext is known by construction (operation lists applied to the generator's own history) or from a foreign encoder are decoded by the library under several ReaderConfig.DictCap values; result must equal the constructed bytes. Every block header length 12..1024 and dictionaries that grow from block to block are enumerated; readers are also drained through io.Copy / ReadByte and read from fragmenting sources. Generated streams include per-block differing layouts, size fields fitted to their boundaries and end-marker variants; a third of the cases follows an earlier reader instance of the same configuration that failed on a truncated or changed copy or was abandoned.",
          "trusts the reference encoder (validated against liblzma / xz-utils decoders); declared dictionaries bounded at 64 MiB", "DESIGN.md#c03"),
  "C04": ("fault_enumeration", "fault enumeration driven by rapid: per generated stream every single-bit flip, every byte insertion/deletion, drawn bursts, and structural field edits with re-sealed CRC32; oracle = never clean EOF with different content / listed inconsistencies must error",
-         "Exhaustive single-fault enumeration per generated stream (bit flips, insert/delete at every offset) plus a structural mutator that re-seals header CRCs so only the targeted cross-check can object: all 256 values of every stream-flag and block-flag byte, each bit of the backward size, swapped/shifted index records, lengthened headers, and generator-built streams that carry one CRC-valid wrong metadata value (sizes, counts, records, backward size) in either direction, or whose index consistently lists fewer or more records than there are blocks.",
+         "Exhaustive single-fault enumeration per generated stream (bit flips, insert/delete at every offset) plus a structural mutator that re-seals header CRCs so only the targeted cross-check can object: all 256 values of every stream-flag and block-flag byte, each bit of the backward size, swapped/shifted index records, lengthened headers, and generator-built streams that carry one CRC-valid wrong metadata value (sizes, counts, records, backward size) in either direction, or whose index consistently lists fewer or more records than there are blocks; block headers shortened below what their fields need; multi-byte filter ids.",
          "CRC32/CRC64 collisions on payload flips (2^-32) ignored; trusts the reference parser's layout", "DESIGN.md#c04"),
  "C05": ("fault_enumeration", "fault enumeration driven by rapid: every cut position of generated .xz / LZMA2 / .lzma streams; oracle = error other than EOF and delivered bytes are a prefix; thorough tier adds native coverage-guided fuzzing over a decision tape that owns every choice of the stream generator (same oracle), and every tier replays the saved fuzz corpus",
          "Every proper prefix (exhaustive per stream; boundary-focused for large streams) of library-, reference- and liblzma-written streams is decoded; a clean end of stream or non-prefix output is a violation.",
@@ -25,13 +25,13 @@ CHECKS = {
          "Generated configurations over all 225 property codes, termination modes, sinks with and without WriteByte; round trip through the library reader; a model of the size contract predicts which Write/Close calls must fail. Out-of-range configurations are proposed and whatever the library accepts is judged; pieces are also handed over through io.Copy / io.WriteString / WriteByte; every shard writes and reads back one long pseudo-random input (24 MiB quick, 256 MiB thorough) for range-coder states that only volume reaches.",
          "BinaryTree inputs bounded by a work budget", "DESIGN.md#c06"),
  "C07": ("exploration", "property-based testing (rapid), differential both ways: library output judged by the reference decoder and liblzma; reference-generated and liblzma-encoded streams decoded by the library; thorough tier adds native coverage-guided fuzzing over a decision tape that owns every choice of the stream generator (same oracle), and every tier replays the saved fuzz corpus",
-         "Writer side: header fields and stream judged by independent decoders. Reader side: arbitrary legal operation lists in all termination modes and any lc/lp/pb, plus liblzma encodings.",
+         "Writer side: header fields and stream judged by independent decoders. Reader side: arbitrary legal operation lists in all termination modes and any lc/lp/pb, plus liblzma encodings. One long match-rich input per shard is written by the library and judged by the reference decoder and liblzma (deviations shared by encoder and decoder show only there, and only with volume).",
          "lc+lp>4 streams are judged by the reference implementation only (liblzma refuses them)", "DESIGN.md#c07"),
  "C08": ("exploration", "stateful property-based testing (rapid state machine) over Write/Flush/Close histories with a model of accepted bytes; prefix-decodability oracle via reference decoder, Reader2 and liblzma",
          "Generated call histories; after every Flush the emitted prefix must decode to the model; after Close the whole output must; later calls must fail and emit nothing. A deterministic limit scan (far matches, rep matches, near matches, literals) measures the chunk limits with the library and walks the write size across them byte by byte; templates cover exactly k*2 MiB followed by Flush, mixed and edge recipes.",
          "histories bounded in length and volume", "DESIGN.md#c08"),
  "C09": ("fault_enumeration", "fault injection enumerated over every sink write index and every source offset of generated scenarios (fail once / forever, with / without partial write)",
-         "For each generated scenario a clean run counts the sink writes; every index is then failed in four modes and the whole call history replayed under recover; symmetric enumeration of failing source offsets for the three readers (incl. SingleStream and multi-stream inputs, errors delivered with data).",
+         "For each generated scenario a clean run counts the sink writes; every index is then failed in four modes and the whole call history replayed under recover; symmetric enumeration of failing source offsets for the three readers (incl. SingleStream and multi-stream inputs, errors delivered with data); sinks fail with no, half or all bytes of the call taken; histories with more than 2 MiB pending; rep-cycling data for byte-wise sinks.",
          "only io.Writer-contract-abiding fault writers", "DESIGN.md#c09"),
  "C10": ("fault_enumeration", "crash-point and syscall-fault enumeration of the real gxz binary under a ptrace tracer, scenarios drawn by rapid; oracle = data-preservation invariants on the directory",
          "The unmodified gxz binary is run under a purpose-built ptrace runner; every file-system system call is a kill point, a fault point and a SIGINT delivery point; the directory is inspected afterwards, and any unlink/rename of a path outside the scenario directory is blocked and reported.",
@@ -40,16 +40,16 @@ CHECKS = {
          "Hostile inputs derived from valid streams by stacked mutations with CRC re-sealing, random strings with valid magic; generator-built streams with CRC-valid absurd metadata (sizes near 2^63, counts, records); every call runs under a stall watchdog; thorough adds go test -fuzz campaigns.",
          "declared dictionaries above 64 MiB excluded by construction; watchdog firing is inconclusive unless reproduced", "DESIGN.md#c11"),
  "C12": ("exploration", "property-based testing (rapid): generated lists of valid streams with paddings / garbage; model oracle for concatenation and SingleStream",
-         "A small model predicts the outcome for every arrangement of streams, padding lengths 0..16, leading padding, trailing bytes and SingleStream; sources fragment their data and deliver the last bytes with io.EOF; enumerated: exactly one byte after a single stream, and streams 1 MiB / 6 MiB apart (the test processes cap the stack at 64 MiB, and a fatal runtime error inside the library is reported as a violation).",
+         "A small model predicts the outcome for every arrangement of streams, padding lengths 0..16, leading padding, trailing bytes and SingleStream; sources fragment their data and deliver the last bytes with io.EOF; enumerated: exactly one byte after a single stream, trailing bytes that look like the beginning of a stream, chains read from an *os.File, and streams 1 MiB / 6 MiB apart (the test processes cap the stack at 64 MiB, and a fatal runtime error inside the library is reported as a violation).",
          "streams come from the library, the reference encoder, liblzma and the frozen corpus", "DESIGN.md#c12"),
  "C13": ("exploration", "property-based testing (rapid) over read-size schedules and source fragmentations; metamorphic oracle (result independent of schedule) plus sticky-EOF invariant; thorough tier adds native coverage-guided fuzzing over a decision tape that owns every choice of the stream generator (same oracle), and every tier replays the saved fuzz corpus",
          "Generated schedules of Read lengths including 0 and 1 and fragmenting sources over multi-block / multi-chunk / multi-stream inputs of all three formats.",
          "sources returning (0,nil) are not generated", "DESIGN.md#c13"),
  "C14": ("exploration", "randomised concurrent schedules under the Go race detector with drawn GOMAXPROCS and yield points; differential oracle against the sequential run; determinism check",
-         "2-8 concurrent jobs per case over distinct instances sharing only read-only inputs; race detector reports and any difference from the sequential result are violations; jobs cover the whole lc/lp/pb space of the classic format; per-case output digests of two separate processes are compared (determinism across runs).",
+         "2-8 concurrent jobs per case over distinct instances sharing only read-only inputs; race detector reports and any difference from the sequential result are violations; jobs cover the whole lc/lp/pb space of the classic format; per-case output digests of two separate processes are compared (determinism across runs); a quarter of the reader jobs fail on purpose; between the two compressions of a job the caller changes the properties of its own verified configuration.",
          "interleavings are sampled by the scheduler, not enumerated", "DESIGN.md#c14"),
  "C15": ("exploration", "model-based property testing (rapid) of the gxz command line: generated directories and argument vectors; executable model of the documented semantics; interoperability with xz-utils",
-         "Generated invocations of the real binary compared with a model derived from the usage text and the property statement; content relations checked with reference decoder and xz-utils. Standard output is a pipe, a regular file or /dev/null; members include multi-stream files and foreign large-dictionary files; the operand - and invocations without operand are fed with a member's bytes on standard input; symbolic links to members; 255..512 failing operands (exit status is one byte); xz-utils members with 3*2^k dictionaries and multi-threaded output.",
+         "Generated invocations of the real binary compared with a model derived from the usage text and the property statement; content relations checked with reference decoder and xz-utils. Standard output is a pipe, a regular file or /dev/null; members include multi-stream files and foreign large-dictionary files; the operand - and invocations without operand are fed with a member's bytes on standard input; symbolic links to members; 255..512 failing operands (exit status is one byte); xz-utils members with 3*2^k dictionaries and multi-threaded output; targets that exist as links leading back to the operand; input modes without read/write bits.",
          "suffix/content disagreements assert only safety invariants", "DESIGN.md#c15"),
  "C16": ("exploration", "exhaustive enumeration of chunk-kind sequences up to a bound and of all 256 control bytes, each realised as a concrete stream; oracle = independent chunk-state automaton and constructed plaintext; writer outputs parsed for limits; thorough tier adds native coverage-guided fuzzing over a decision tape that owns every choice of the stream generator (same oracle), and every tier replays the saved fuzz corpus",
          "All sequences over the seven chunk kinds up to length L (quick 5, thorough 7) with and without end chunk; the reader must accept exactly the legal ones and fail at the offending chunk. Generator-built legal streams with chunk size fields fitted to every boundary (1, 2, 255..257, 65535..65537, 2^20, 2^21) are decoded after an earlier Reader2 of the same capacity failed or was abandoned; writer outputs over the raw/compressed decision band are parsed for legality and limits.",
